@@ -118,7 +118,7 @@ class C20(Prop):
     theorems = ["EaselModel.Props.C20." + t for t in (
         "sse_hmax_epu8", "sse_hmax_epi8", "sse_hmax_epi16", "avx_hmax_epu8", "avx_hmax_epi8", "avx_hmax_epi16", "avx512_hmax_epu8", "avx512_hmax_epi8", "avx512_hmax_epi16", "sse_hsum_ps", "avx_hsum_ps", "avx512_hsum_ps", "sse_hmax_ps", "sse_hmin_ps", "sse_any_gt_epu8", "sse_any_gt_epi16", "avx_any_gt_epi16", "sse_any_gt_ps", "sse_select_ps", "sse_rightshiftz_float", "sse_leftshiftz_float", "avx_rightshiftz_float", "avx_leftshiftz_float", "avx512_rightshiftz_float", "avx512_leftshiftz_float", "sse_rightshift_ps", "sse_leftshift_ps", "sse_rightshift_int8", "sse_rightshift_int16", "avx_rightshift_int8", "avx_rightshift_int16", "avx512_rightshift_int8", "avx512_rightshift_int16", "logf_negative", "logf_zero_subnormal", "logf_inf_nan", "expf_underflow", "expf_overflow", "expf_cutoffs_in_window", "expf_nan", "sum_eq_real", "dot_eq_real", "vmax_spec", "vmin_spec", "argmax_spec", "argmin_spec", "argmax_nil", "sortIncreasing_spec", "sortDecreasing_spec", "norm_of_sum_ne_zero", "norm_of_sum_zero", "entropy_eq", "cdf_spec", "validate_spec", "logSum_all_ninf", "logSum_spec", "logSum_of_max_pinf", "logNorm_spec", "relEntropyGo_spec", "isum_eq", "idot_eq", "log2Sum_spec", "rightshift_fill", "logSum_spec_F", "log2Sum_spec_F", "hmaxU_spec", "hmaxS_spec", "sse_hsum_ps_real", "avx_hsum_ps_real", "avx512_hsum_ps_real", "sse_hmax_ps_real", "sse_hmin_ps_real", "dot_rounding", "kahan_rounding", "mat_cell_in_block", "mat_cell_inj", "mat_cell_surj",
         # D. regenerated esl_vectorops.c / esl_matrixops.c routines (Generated/VectorOps.lean)
-        "gen_cmp_int", "gen_cmp_int_decr", "gen_cmp_int64", "gen_cmp_int64_decr", "gen_ISortIncreasing", "gen_ISortDecreasing", "gen_LSortIncreasing",
+        "gen_cmp_int", "gen_cmp_int_decr", "gen_cmp_int64", "gen_cmp_int64_decr", "cmp_sub_idiom_window", "cmp_sub_idiom_wrong", "gen_ISortIncreasing", "gen_ISortDecreasing", "gen_LSortIncreasing",
         "gen_LSortDecreasing", "gen_DSortIncreasing", "gen_DSortDecreasing", "gen_FSortIncreasing", "gen_FSortDecreasing", "gen_max_eq", "gen_min_eq",
         "gen_IMax", "gen_IMin", "gen_LMax", "gen_LMin", "gen_max_empty", "gen_ISum_exact", "gen_LSum_exact", "gen_ISum_overflow", "gen_DSum", "gen_DSum_real",
         "gen_argmax_eq", "gen_argmin_eq", "gen_IArgMax", "gen_IArgMin", "gen_LArgMax", "gen_LArgMin", "gen_IDot_exact", "gen_LDot_exact", "gen_DDot",
@@ -428,6 +428,7 @@ class C20(Prop):
         quick = ctx.tier == "quick"
         ops = []
         edge_faults = []
+        gen_faults = []
         lens = [1, 2, 3, 4, 5, 7, 8, 16, 17, 31, 64, 100, 255, 256, 999, 1000] + ([] if quick else [2000, 4096, 10000])
         def hx(T, v): return hex_f64s(v) if T == "D" else hex_f32s(v)
         def sb(T, x): return "%016x" % bits_of_f64(x) if T == "D" else "%08x" % bits_of_f32(x)
@@ -546,10 +547,28 @@ class C20(Prop):
                     w = [rng.randrange(lo, hi + 1) for _ in range(n)]
                     hv = b"".join(int(x).to_bytes(k, "little", signed=True) for x in v).hex()
                     hw = b"".join(int(x).to_bytes(k, "little", signed=True) for x in w).hex()
-                    for o in ("Max", "Min", "ArgMax", "ArgMin", "SortIncreasing", "SortDecreasing", "ReverseInPlace", "Copy"):
+                    for o in ("Max", "Min", "ArgMax", "ArgMin", "SortIncreasing", "SortDecreasing", "ReverseInPlace", "Reverse", "Copy"):
                         ops.append("vec op=%s%s x=%s" % (T, o, hv))
                     ops.append("vec op=%sSwap x=%s y=%s" % (T, hv, hw))
                     ops.append("vec op=%sSet x=%s k=%d" % (T, hv, rng.choice([lo, hi, 0, -1])))
+                    # the arithmetic routines on the same extreme vectors: where every intermediate value of C's evaluation order is
+                    # representable the exact result is demanded, otherwise the documented undefined behaviour (UBSan abort = model `none`)
+                    if n <= 64:
+                        ws = rng.choice([w, [rng.choice([0, 1, -1, 2, -2]) for _ in range(n)], [rng.choice(edge) for _ in range(n)]])
+                        hws = b"".join(int(x).to_bytes(k, "little", signed=True) for x in ws).hex()
+                        if style in ("edges", "two") and rng.random() < 0.5:      # cancelling arrangement: partial sums stay in range
+                            vv = []
+                            for x in v[: n // 2]: vv += [x, -x if x != lo else hi]
+                            v2 = (vv + [0] * n)[:n]
+                        else: v2 = v
+                        hv2 = b"".join(int(x).to_bytes(k, "little", signed=True) for x in v2).hex()
+                        c = rng.choice([0, 1, -1, 2, -2, hi, lo, 3])
+                        for (o, yy, cc) in (("Sum", None, None), ("Dot", ws, None), ("Scale", None, c), ("Increment", None, c), ("Add", ws, None), ("AddScaled", ws, c)):
+                            line = "vec op=%s%s x=%s" % (T, o, hv2)
+                            if yy is not None: line += " y=" + hws
+                            if cc is not None: line += " k=%d" % cc
+                            if self.int_ref(T, o, v2, yy or [], cc if cc is not None else 1) == "fault": gen_faults.append(line)
+                            else: ops.append(line)
                     if T == "I":
                         M = rng.choice([d for d in (1, 2, 3, 4, 5, 8) if n % d == 0])
                         ops.append("vec op=IMatMax m=%d x=%s" % (M, hv))
@@ -582,6 +601,8 @@ class C20(Prop):
                 if self.int_ref(T, o, v, w or [], c if c is not None else 1) == "fault": flt.append(line)
                 else: ops.append(line)
             edge_faults += rng.sample(flt, min(len(flt), 4 if quick else len(flt)))
+        edge_faults += rng.sample(gen_faults, min(len(gen_faults), 8 if quick else 60))
+        self._n_gen_faults = len(gen_faults)
         # the routines on a prefix of the buffer (n smaller than the allocation), the flat matrix routines, char reversal
         for T, k in (("D", 8), ("F", 4), ("I", 4), ("L", 8)):
             for _ in range(6 if quick else 30):
